@@ -44,6 +44,35 @@ def gen(rng, tier, i):
 from .. import gen as _gen  # noqa
 gen = _gen.with_lines(gen, ['_write_loop', 'send', 'poll', 'writer', 'close', 'disconnect', '_websocket_handler', '_connect_websocket'])
 
+_gen_general = gen
+
+
+def gen_heartbeat_thread_stalled(rng, tier, i):
+    """Threaded server, an idle connection of many heartbeat cycles, and a
+    ping thread that loses the CPU for a whole PING/PONG round trip inside
+    _send_ping (stall run): the connection must stay up all the same."""
+    for _ in range(50):
+        plan = interop.gen_interop_plan(rng, {'p_idle': 1.0, 'p_fault': 0.0,
+                                              'p_end': 0.3})
+        if plan['server'] == 'threaded':
+            break
+    plan['server'] = 'threaded'
+    plan['link_faults'] = []
+    plan['fixed_latency'] = rng.choice([None, 1, 1])
+    plan['line'] = {'mean': rng.choice([1, 2, 4]), 'max': 4,
+                    'focus': ['_send_ping'], 'stall': rng.choice([8, 32])}
+    return plan
+
+
+def gen(rng, tier, i):
+    if rng.random() < 0.06:
+        return gen_heartbeat_thread_stalled(rng, tier, i)
+    return _gen_general(rng, tier, i)
+
+
+gen.lines = True
+
+
 def run(plan, sched_values=None, sched_seed=0):
     h = interop.run_interop_scenario(plan, sched_values, sched_seed)
     v = interop.check_interop(h)
